@@ -395,6 +395,8 @@ CHECKS["C07"] = {
          "gen_stubs": [{"pkgpath": "github.com/ProtonMail/gluon/connector", "iface": "Connector", "type": "verifConnBase"}],
          "params": {"quick": grid(faults=[0, 1]), "thorough": grid(faults=[0, 1, 2])},
          "cover": ["command-ok", "crash-point"]},
+        {"name": "wraptx", "pkg": "internal/db_impl/sqlite3", "pkgname": "sqlite3", "entry": "VerifC07WrapTx", "files": ["zz_verif_c07.go"],
+         "params": {"quick": [{}], "thorough": [{}]}, "cover": ["op-ok", "op-error", "op-panic"], "replay_timeout_s": 60},
         {"name": "getliteral", "pkg": "internal/state", "pkgname": "state", "entry": "VerifC07GetLiteral",
          "files": ["zz_verif_c20.go", "zz_verif_c17.go"] + STATE_FILES, "with": ["verifdb"], "gen_stubs": [TX_STUB],
          "params": {"quick": [{}], "thorough": [{}]}, "cover": ["literal-served", "literal-failed"]},
